@@ -211,7 +211,7 @@ class Env:
             return v
         if out == "excsame" and self.raised and isinstance(self.raised[-1], OpError):
             exc: BaseException = self.raised[-1]          # the very same object again
-            exc.attempt, exc.klass, exc.ra = n, sc["k"], sc["ra"]
+            exc.klass, exc.ra = sc["k"], sc["ra"]
         elif out in ("exc", "excsame"):
             exc = OpError(n, sc["k"], sc["ra"])
         elif out == "abort":
@@ -466,7 +466,7 @@ class Env:
     def _exc_id(self, exc: BaseException | None) -> int:
         if exc is None:
             return NONE
-        for r, n in zip(reversed(self.raised), reversed(self.raised_n)):
+        for r, n in zip(self.raised, self.raised_n):     # identity = the attempt that raised it first
             if exc is r:
                 return n
         return NOT_OURS
